@@ -56,6 +56,10 @@ func validatorFirstReject(seq []h.SpecElem) (idx int) {
 			err = v.HandleChange(fsutil.ChangeKindAdd, e.Path, &fsutil.StatInfo{Stat: &types.Stat{Path: e.Path, Mode: 0o644}}, nil)
 		case h.SpecDelete:
 			err = v.HandleChange(fsutil.ChangeKindDelete, e.Path, nil, nil)
+		case h.SpecDirMod:
+			err = v.HandleChange(fsutil.ChangeKindModify, e.Path, &fsutil.StatInfo{Stat: &types.Stat{Path: e.Path, Mode: uint32(os.ModeDir | 0o755)}}, nil)
+		case h.SpecFileMod:
+			err = v.HandleChange(fsutil.ChangeKindModify, e.Path, &fsutil.StatInfo{Stat: &types.Stat{Path: e.Path, Mode: 0o644}}, nil)
 		}
 		if err != nil {
 			return i
@@ -93,7 +97,7 @@ func c12Check(env *h.Env, c *c12Case) error {
 func fmtSeq(s []h.SpecElem) string {
 	var parts []string
 	for _, e := range s {
-		parts = append(parts, fmt.Sprintf("%s:%q", [...]string{"dir", "file", "del"}[e.Kind], e.Path))
+		parts = append(parts, fmt.Sprintf("%s:%q", [...]string{"dir", "file", "del", "dir(modified)", "file(modified)"}[e.Kind], e.Path))
 	}
 	return "[" + strings.Join(parts, " ") + "]"
 }
@@ -108,7 +112,7 @@ func c12Exhaustive(t *testing.T, r *h.Runner, L int) {
 	type sym = h.SpecElem
 	var syms []sym
 	for _, p := range c12Alphabet {
-		for k := h.SpecDir; k <= h.SpecDelete; k++ {
+		for k := h.SpecDir; k <= h.SpecFileMod; k++ {
 			syms = append(syms, sym{Path: p, Kind: k})
 		}
 	}
@@ -161,7 +165,7 @@ func c12Exhaustive(t *testing.T, r *h.Runner, L int) {
 	rec(nil)
 	r.CountN(visited, nontriv, "exhaustive")
 	r.AddExtra("exhaustive_sequences_covered", covered)
-	r.Extra("exhaustive_bound", fmt.Sprintf("all sequences of length <= %d over %d symbols (%d paths x {dir,file,delete})", L, len(syms), len(c12Alphabet)))
+	r.Extra("exhaustive_bound", fmt.Sprintf("all sequences of length <= %d over %d symbols (%d paths x {dir,file,delete,modified dir,modified file})", L, len(syms), len(c12Alphabet)))
 	r.Extra("exhaustive", !failed)
 }
 
@@ -284,13 +288,13 @@ func genC12(t *rapid.T) *c12Case {
 			if prefix != "" {
 				p = prefix + "/" + p
 			}
-			kind := h.SpecKind(rapid.IntRange(0, 2).Draw(t, "kind"))
+			kind := h.SpecKind(rapid.IntRange(0, 4).Draw(t, "kind"))
 			if depth+1 < maxDepth && maxDepth > 4 && c == 0 {
 				kind = h.SpecDir // drive deep
 			}
 			seq = append(seq, h.SpecElem{Path: p, Kind: kind})
 			used++
-			if kind == h.SpecDir && depth+1 < maxDepth {
+			if (kind == h.SpecDir || kind == h.SpecDirMod) && depth+1 < maxDepth {
 				used += rec(p, depth+1, budget-used)
 			}
 		}
@@ -309,7 +313,7 @@ func genC12(t *rapid.T) *c12Case {
 		case 0: // duplicate an element later
 			k := rapid.IntRange(j, len(seq)-1).Draw(t, "dupto")
 			e := seq[j]
-			e.Kind = h.SpecKind(rapid.IntRange(0, 2).Draw(t, "dupkind"))
+			e.Kind = h.SpecKind(rapid.IntRange(0, 4).Draw(t, "dupkind"))
 			seq = append(seq[:k+1], append([]h.SpecElem{e}, seq[k+1:]...)...)
 		case 1: // swap neighbours
 			if j+1 < len(seq) {
@@ -325,13 +329,13 @@ func genC12(t *rapid.T) *c12Case {
 			seq[j].Path = rapid.SampledFrom([]string{"./", "../", "/", ""}).Draw(t, "pre") + seq[j].Path + rapid.SampledFrom([]string{"", "/", "/.", "/..", "//x"}).Draw(t, "suf")
 		case 6: // jump back to an earlier sibling name deep in the tree
 			if idx := strings.LastIndex(seq[j].Path, "/"); idx >= 0 {
-				seq = append(seq, h.SpecElem{Path: seq[j].Path[:idx] + "/" + rapid.SampledFrom(sortedNames).Draw(t, "sib"), Kind: h.SpecKind(rapid.IntRange(0, 2).Draw(t, "sibkind"))})
+				seq = append(seq, h.SpecElem{Path: seq[j].Path[:idx] + "/" + rapid.SampledFrom(sortedNames).Draw(t, "sib"), Kind: h.SpecKind(rapid.IntRange(0, 4).Draw(t, "sibkind"))})
 			}
 		case 7: // re-announce an ancestor after its subtree
 			if idx := strings.Index(seq[j].Path, "/"); idx >= 0 {
 				cut := rapid.IntRange(1, strings.Count(seq[j].Path, "/")).Draw(t, "anc")
 				parts := strings.Split(seq[j].Path, "/")
-				seq = append(seq, h.SpecElem{Path: strings.Join(parts[:cut], "/"), Kind: h.SpecKind(rapid.IntRange(0, 2).Draw(t, "anckind"))})
+				seq = append(seq, h.SpecElem{Path: strings.Join(parts[:cut], "/"), Kind: h.SpecKind(rapid.IntRange(0, 4).Draw(t, "anckind"))})
 			}
 		}
 	}
@@ -372,7 +376,7 @@ func FuzzC12Validator(f *testing.F) {
 			if part == "" {
 				continue
 			}
-			seq = append(seq, h.SpecElem{Kind: h.SpecKind(part[0] % 3), Path: part[1:]})
+			seq = append(seq, h.SpecElem{Kind: h.SpecKind(part[0] % 5), Path: part[1:]})
 			if len(seq) > 64 {
 				break
 			}
